@@ -235,6 +235,21 @@ type loopInfo struct {
 	preserved [][3]string     // (component, ref, term at loop head) declared unchanged by the loop
 }
 
+// isDone: s is a block the loop goes to when its condition turns false (exit edge of the header or of a latch).
+func (li *loopInfo) isDone(s *ssa.BasicBlock) bool {
+	if li.body[s] {
+		return false
+	}
+	for _, from := range append([]*ssa.BasicBlock{li.header}, li.back...) {
+		for _, t := range from.Succs {
+			if t == s {
+				return true
+			}
+		}
+	}
+	return false
+}
+
 func findLoops(fn *ssa.Function) (map[*ssa.BasicBlock]*loopInfo, []*loopInfo) {
 	loops := map[*ssa.BasicBlock]*loopInfo{}
 	for _, b := range fn.Blocks {
@@ -433,6 +448,40 @@ func (vc *VC) execBody(fr *Frame, st0 *State) []retInfo {
 		exits[b] = ex
 		// back edges out of this block: check invariants
 		if ex != nil {
+			// edges that leave a loop normally: `loop k exit assert` clauses
+			if fr.spec != nil {
+				var ordered []*loopInfo
+				for _, l2 := range loops {
+					ordered = append(ordered, l2)
+				}
+				sort.Slice(ordered, func(i, j int) bool { return ordered[i].ord < ordered[j].ord })
+				for _, l2 := range ordered {
+					ls := fr.spec.Loops[l2.ord]
+					if ls == nil || len(ls.Exits) == 0 || !l2.body[b] {
+						continue
+					}
+					for si, s := range b.Succs {
+						if l2.body[s] {
+							continue
+						}
+						// a normal exit goes to a "done" block of the loop: the target of an exit edge of the header or of a
+						// latch (the loop condition turning false), also reached by `break`; edges towards a `return` do not count
+						if !l2.isDone(s) {
+							continue
+						}
+						est := ex.st.clone()
+						est.pc = ex.conds[si]
+						for _, c := range ls.Exits {
+							env := vc.specEnvCur(fr, est, fr.oldStOrSelf(est), nil)
+							name := fmt.Sprintf("%s#loop%d.exit.%d", vc.fnNameOf(fr), l2.ord, c.Idx)
+							if k := vc.ord(fr, name); k > 0 { // several exit edges: later ones get an ordinal
+								name = fmt.Sprintf("%s.e%d", name, k)
+							}
+							vc.oblige(est, name, "loop.exit", vc.trBool(env, c.E), c.Src, blockPos(l2.header))
+						}
+					}
+				}
+			}
 			for si, s := range b.Succs {
 				if l2 := loops[s]; l2 != nil && s.Dominates(b) {
 					vc.loopBackEdge(fr, l2, b, ex, si)
@@ -723,7 +772,7 @@ func (vc *VC) execInstr(fr *Frame, in ssa.Instruction, st *State) {
 		fr.defers = append(fr.defers, d)
 	case *ssa.DebugRef:
 		if id, ok := x.Expr.(*ast.Ident); ok && id.Name != "_" {
-			if _, isVar := x.Object().(*types.Var); isVar {
+			if ov, isVar := x.Object().(*types.Var); isVar && !ov.IsField() { // (a selector's field name is reported too: not a local)
 				v := vc.operand(fr, x.X)
 				if x.IsAddr {
 					v = Val{Addr: vc.addrOfPtr(v), Typ: v.Typ, Sort: "addr"}
@@ -1195,6 +1244,13 @@ func subT(a, b string) string {
 	}
 	if a == b {
 		return "0"
+	}
+	// (+ b c) - b = c   (keeps slice lengths literal, so they can appear in E-matching patterns)
+	if strings.HasPrefix(a, "(+ "+b+" ") && strings.HasSuffix(a, ")") {
+		rest := strings.TrimSuffix(strings.TrimPrefix(a, "(+ "+b+" "), ")")
+		if parts := splitSexp(rest); len(parts) == 1 {
+			return parts[0]
+		}
 	}
 	return fmt.Sprintf("(- %s %s)", a, b)
 }
